@@ -215,13 +215,19 @@ def _stderr_oos(detail):
 
 
 def run_tail(rep, b, hdr, progs, env, known_culprits):
-    """progs: list of dict(id, path, variant, points, control, form).  Returns dict id -> samples or None."""
-    res, procs = C.run_batches(b, IMPORTS, hdr, [(p["id"], "(%%case %s %s)" % (p["id"], p["form"])) for p in progs],
+    """progs: list of dict(id, path, variant, points, control, form).  Returns dict id -> (prog, CaseResult or None)."""
+    small = [p for p in progs if p["points"][-1] <= 100000]
+    large = [p for p in progs if p["points"][-1] > 100000]       # 10^7 iterations: seconds each, own small files
+    res, procs = C.run_batches(b, IMPORTS, hdr, [(p["id"], "(%%case %s %s)" % (p["id"], p["form"])) for p in small],
                                batch=25, env_extra=env, timeout=120, heap="64M/1G")
+    if large:
+        res2, procs2 = C.run_batches(b, IMPORTS, hdr, [(p["id"], "(%%case %s %s)" % (p["id"], p["form"])) for p in large],
+                                     batch=2, env_extra=env, timeout=900, heap="64M/1G")
+        res.update(res2)
+        procs.extend(procs2)
     out = {}
     for p in progs:
-        r = res.get(p["id"])
-        out[p["id"]] = (p, r)
+        out[p["id"]] = (p, res.get(p["id"]))
     return out, procs
 
 
